@@ -175,7 +175,7 @@ class Ctx:
 
     # -- runner side ------------------------------------------------------------------------
     def stats(self):
-        return dict(evaluations=self.evaluations + self.inner, nontrivial=sorted(self.nontrivial),
+        return dict(evaluations=self.evaluations + self.inner, cases=self.evaluations, nontrivial=sorted(self.nontrivial),
                     labels=dict(self.labels), samples=self.samples, nt_samples=self.nt_samples,
                     max_resid=self.max_resid, n_excluded=self.n_excluded,
                     n_budget_skipped=self.n_budget_skipped, inconclusive=self.inconclusive)
